@@ -538,6 +538,8 @@ func init() {
 				e2run("counter-2c-entry-cs-f1-d5", e2p{Clients: 2, Type: "counter", Modes: []string{"create", "subscribe"}, Exchange: "pack", Faults: []string{"drop", "dup"}, MaxFault: 1, Alpha: "one", Oracles: o}, 5, 0),
 				e2run("doc-2c-f1-d3", e2p{Clients: 2, Type: "doc", Prefix: "joined", Exchange: "pack", Faults: f, MaxFault: 1, Oracles: o[:4]}, 3, 0),
 				e2run("map-2c-entry-f1-d4", e2p{Clients: 2, Type: "map", Modes: []string{"soc"}, Exchange: "pack", Faults: f, MaxFault: 1, Oracles: o}, 4, 0),
+				// the answer to a subscription is held back, the subscription is made again, and the first answer arrives late
+				e2run("counter-2c-created-entry-late-d6", e2p{Clients: 2, Type: "counter", Prefix: "created", Modes: []string{"subscribe", "soc"}, Exchange: "pack", Faults: []string{"late"}, MaxFault: 1, Alpha: "one", Oracles: o}, 6, 0),
 			}
 		} else {
 			p.BudgetS = 3300
